@@ -243,6 +243,16 @@ def _joins(t):
     return out
 
 
+def _regex_named(src, groups):
+    """the name under which deb822 binds the compiled pattern that has these named groups (the pattern of one dependency, of one
+    restriction term): wherever it is kept -- in the class or in the module -- and whatever it is called"""
+    found = [r_ for r_ in src.regexes() if r_['module'] == 'deb822' and r_['binding'] and isinstance(r_.get('pattern'), str)
+             and all('(?P<%s>' % g_ in r_['pattern'] for g_ in groups)]
+    if len(found) != 1:
+        raise AnalysisError('deb822: %d compiled patterns with the groups %s' % (len(found), ', '.join(groups)))
+    return found[0]['binding'].split('.')[-1]
+
+
 def r3_mapping(rep, src):
     """parse_relations interpreted on symbolic strings.  The text of one field is  D1 ", " D2 " | " D3  (pieces free of
     separators); __dep_RE.match is replaced by a stub whose groupdict() holds one symbolic atom per group (what the groups
@@ -298,7 +308,8 @@ def r3_mapping(rep, src):
                 it.h.objs[d.name]['entries'] += [('enabled', '!' if neg else None), ('profile', p_)]
                 return it.h.alloc('Match', {'groups': d})
         raise AnalysisError('__restriction_RE is applied to %r, which is not a single restriction term of the scenario' % (s_,))
-    heap = H.Heap(mod, hooks={'regex:__dep_RE.match': dep_match, 'regex:__restriction_RE.match': restriction_match,
+    dep_name, restr_name = _regex_named(src, ('name', 'archqual')), _regex_named(src, ('enabled', 'profile'))
+    heap = H.Heap(mod, hooks={'regex:%s.match' % dep_name: dep_match, 'regex:%s.match' % restr_name: restriction_match,
                               '.groupdict': lambda it, args, kw: it.h.objs[args[0].name]['groups'],
                               # Match.group(name): the group; group(n1, n2, ...): the tuple of them
                               '.group': lambda it, args, kw: it.h.dict_get(it.h.objs[args[0].name]['groups'], args[1]) if len(args) == 2
@@ -358,7 +369,7 @@ def r3_mapping(rep, src):
     # the empty conjunction (what `relations` gives for an absent field): str([]) and parse_relations of that text, both interpreted
     fs = src.func(SITE + '.str')
     warned2 = []
-    heap2 = H.Heap(mod, hooks={'regex:__dep_RE.match': lambda it_, a, k: None, 'warnings.warn': lambda it_, a, k: warned2.append(a[0])})
+    heap2 = H.Heap(mod, hooks={'regex:%s.match' % dep_name: lambda it_, a, k: None, 'warnings.warn': lambda it_, a, k: warned2.append(a[0])})
     heap2.symbolic_strings = True
     heap2.native_regex = True
     it2 = H.Interp(heap2)
